@@ -6,6 +6,7 @@ import (
 	"os"
 	"path/filepath"
 	"runtime"
+	"runtime/debug"
 	"sort"
 	"strconv"
 	"strings"
@@ -261,11 +262,15 @@ func watchdog(c *Ctx) chan struct{} {
 			}
 			var ms runtime.MemStats
 			runtime.ReadMemStats(&ms)
+			if ms.Sys > 12<<30 {
+				debug.SetGCPercent(100) // the harness itself must not be what fills the memory
+			}
 			stuck := explore.InFlight(10 * time.Minute)
 			if ms.Sys > 24<<30 || len(stuck) > 0 {
 				if len(stuck) == 0 {
-					// memory: the longest-running execution is the suspect, if it is running for a minute or more
-					if l := explore.InFlight(time.Minute); len(l) > 0 {
+					// memory: the longest-running execution is the suspect, if it is running for two minutes
+					// or more (an execution takes milliseconds, the longest fast-forward ones a few seconds)
+					if l := explore.InFlight(2 * time.Minute); len(l) > 0 {
 						stuck = l[:1]
 					}
 				}
